@@ -57,6 +57,9 @@ def gen_macro(rng, name, slot, pprec, ienv, slots, nrange=(2, 14)):
     n = rng.randint(*nrange)
     pat = pl.gen_pattern(rng, n); annz = len(pat["rowind"])
     slots.append({"sid": slot, "prec": prec, "pat": pat})
+    # panel_size and relax are arguments of every call (p?gstrf_init / the options structure), not process-wide settings: the calls
+    # of the history use their own values, in general different from the probe's
+    ienv = list(ienv); ienv[0] = rng.choice([1, 2, 4, 8, 16]); ienv[1] = rng.choice([1, 2, 4, 6])
     lw = pl.lwork_enough(n, annz, prec, ienv, 4, ienv[0])
     ops = []
     base = name.rsplit("_", 1)[0]
